@@ -929,6 +929,15 @@ func (env *SpecEnv) call(x *ast.CallExpr) Val {
 			specErr("unknown type %q", ts)
 		}
 		return Val{t: eq(app("i_tag", v.t), fmt.Sprint(vc.te.tagOf(t))), typ: boolT}
+	case "mapwrites": // ghost: writes to a package-level map since function entry, mapwrites(pkg.Global)
+		sel, ok := x.Args[0].(*ast.SelectorExpr)
+		if !ok {
+			specErr("mapwrites needs pkg.Global")
+		}
+		g := sel.X.(*ast.Ident).Name + "." + sel.Sel.Name
+		cur := vc.he.get(env.st, mapWritesLoc(g), "Int")
+		ent := vc.he.get(vc.entry, mapWritesLoc(g), "Int")
+		return Val{t: app("-", cur, ent), typ: intT}
 	case "nlwritten": // ghost: newline bytes written to a strings.Builder (argument: the builder variable)
 		v := env.rv(env.eval(x.Args[0]))
 		return env.inState(func() Val {
